@@ -55,7 +55,7 @@ Definition constr_eqb (a b : constr) : bool :=
   | CsPk k s, CsPk k' s' => bytes_eqb k k' && bytes_eqb s s'
   | CsPkh h k s, CsPkh h' k' s' => bytes_eqb h h' && bytes_eqb k k' && bytes_eqb s s'
   | CsHash kd h p, CsHash kd' h' p' => N.eqb (ihk_code kd) (ihk_code kd') && bytes_eqb h h' && bytes_eqb p p'
-  | CsOlder n, CsOlder n' => N.eqb n n'
+  | CsOlder n, CsOlder n' => N.eqb (rel_norm n) (rel_norm n')
   | CsAfter n, CsAfter n' => N.eqb n n'
   | _, _ => false
   end.
